@@ -732,7 +732,7 @@ def fuse(
                         if children_stack:
                             # Allow the parent to be fused, but only under strict circumstances.
                             # Ensure that linear chains may still be fused.
-                            if fudge > int(ave_width - 1):
+                            if fudge > ave_width - 1:
                                 fudge = int(ave_width - 1)
                             # This task *implicitly* depends on `edges`
                             info_stack_append(
@@ -855,7 +855,7 @@ def fuse(
                             # Ensure that linear chains may still be fused.
                             if width > max_width:
                                 width = max_width
-                            if fudge > int(ave_width - 1):
+                            if fudge > ave_width - 1:
                                 fudge = int(ave_width - 1)
                             # key, task, height, width, number of nodes, fudge, set of edges
                             # This task *implicitly* depends on `edges`
